@@ -267,10 +267,50 @@ def run_events(boundary, charset, chunks):
     return " ".join(groups) + " held=%d" % held
 
 
-def run_stream(boundary, charset, max_parts, max_mem, chunks, is_async):
+class MinSyncSink:
+    """a file_factory offering exactly SyncUploadFileInterface: __init__, write, seek (no close, no read)"""
+
+    def __init__(self, filename, headers):
+        self.filename, self.headers, self.buf, self.pos = filename, headers, bytearray(), 0
+
+    def write(self, data):
+        self.buf[self.pos:self.pos + len(data)] = data
+        self.pos += len(data)
+
+    def seek(self, offset):
+        self.pos = offset
+
+    @property
+    def content_type(self):
+        return self.headers.get("content-type", "")
+
+
+class MinAsyncSink:
+    """a file_factory offering exactly AsyncUploadFileInterface: __init__, awrite, aseek"""
+
+    def __init__(self, filename, headers):
+        self.filename, self.headers, self.buf, self.pos = filename, headers, bytearray(), 0
+
+    async def awrite(self, data):
+        self.buf[self.pos:self.pos + len(data)] = data
+        self.pos += len(data)
+
+    async def aseek(self, offset):
+        self.pos = offset
+
+    @property
+    def content_type(self):
+        return self.headers.get("content-type", "")
+
+
+STREAM_OPS = ("mp_stream", "mp_astream", "mp_stream_min", "mp_astream_min")
+
+
+def run_stream(boundary, charset, max_parts, max_mem, chunks, is_async, minimal=False):
     _Rec.held = 0
     _Rec.dheld = 0
-    kw = dict(file_factory=UploadFile, max_form_parts=max_parts, max_form_memory_size=max_mem)
+    factory = UploadFile if not minimal else (MinAsyncSink if is_async else MinSyncSink)
+    kw = dict(file_factory=factory, max_form_parts=max_parts, max_form_memory_size=max_mem)
     try:
         if is_async:
             async def agen():
@@ -289,10 +329,13 @@ def run_stream(boundary, charset, max_parts, max_mem, chunks, is_async):
             items = helper_mod.parse_stream(iter(chunks), boundary, charset, **kw)
     except Exception as exc:  # noqa
         return "%s held=%d dheld=%d" % (exc_name(exc), _Rec.held, _Rec.dheld)
-    text = r_items(items, lambda f: f.read())
-    for _, v in items:
-        if not isinstance(v, str):
-            v.close()
+    if minimal:
+        text = r_items(items, lambda f: bytes(f.buf))
+    else:
+        text = r_items(items, lambda f: f.read())
+        for _, v in items:
+            if not isinstance(v, str):
+                v.close()
     return "ok %s held=%d dheld=%d" % (text, _Rec.held, _Rec.dheld)
 
 
@@ -310,7 +353,7 @@ def run_wsgi_form(content_type, chunks):
     from baize.wsgi import Request
 
     environ = {"REQUEST_METHOD": "POST", "CONTENT_TYPE": content_type, "wsgi.input": ChunkInput(chunks),
-               "QUERY_STRING": "", "wsgi.url_scheme": "http", "SERVER_NAME": "t", "SERVER_PORT": "80"}
+               "CONTENT_LENGTH": str(sum(len(c) for c in chunks)), "QUERY_STRING": "", "wsgi.url_scheme": "http", "SERVER_NAME": "t", "SERVER_PORT": "80"}
     req = Request(environ)
     try:
         form = req.form
@@ -354,9 +397,9 @@ def impl(line):
     op = a[0]
     if op == "mp_events":
         return run_events(dec_bytes(a[1]), charset_of(a[2]), chunks_of(a[3]))
-    if op in ("mp_stream", "mp_astream"):
+    if op in STREAM_OPS:
         return run_stream(dec_bytes(a[1]), charset_of(a[2]), int(a[3]), None if a[4] == "none" else int(a[4]),
-                          chunks_of(a[5]), op == "mp_astream")
+                          chunks_of(a[5]), "astream" in op, op.endswith("_min"))
     if op == "mp_wsgi_form":
         return run_wsgi_form(dec_text(a[1]), chunks_of(a[2]))
     if op == "mp_asgi_form":
@@ -375,7 +418,7 @@ def body_of(line):
     op = a[0]
     if op == "mp_events":
         return dec_bytes(a[1]), charset_of(a[2]), chunks_of(a[3])
-    if op in ("mp_stream", "mp_astream"):
+    if op in STREAM_OPS:
         return dec_bytes(a[1]), charset_of(a[2]), chunks_of(a[5])
     if op in ("mp_wsgi_form", "mp_asgi_form"):
         from baize.utils import parse_header
@@ -397,7 +440,7 @@ def describe(line):
     if info:
         b, cs, chunks = info
         d.update(boundary=repr(b), charset=cs, chunks=[repr(c) for c in chunks], body=repr(b"".join(chunks)))
-    if a[0] in ("mp_stream", "mp_astream"):
+    if a[0] in STREAM_OPS:
         d.update(max_form_parts=a[3], max_form_memory_size=a[4])
     if a[0] == "mp_header":
         d["header"] = dec_text(a[1])
@@ -434,8 +477,11 @@ def rand_content(rng, boundary, maxlen=24):
 BOUNDARIES = [b"bd", b"-", b"--", b"a-b", b"b", b"X" * 70, b"a.b(c)[d]+*?^$|\\", b"----WebKitFormBoundary7MA4YWxk",
               b"'()+_,-./:=?", b"0"]
 NAMES = ["a", "b", "field", "name with space", "üñî", "中文", "x;y", "a=b", "q'z", "",
-         "n:1", "*"]
-FILENAMES = ["f.txt", "a b.bin", "é.png", "semi;colon.txt", "", "中.bin", "C:fake", "x=y"]
+         "n:1", "*",
+         # characters that str.splitlines / str.strip treat specially but that are NOT line breaks of the format
+         "a\x0cb", "t\x1cu", "n\x85m", "x\u2028y", "v\x0bw", "p\u2029q"]
+FILENAMES = ["f.txt", "a b.bin", "é.png", "semi;colon.txt", "", "中.bin", "C:fake", "x=y",
+             "ff\x0c.bin", "ls\u2028.txt", "nel\x85.dat", "fs\x1c"]
 EXTRA = [("Content-Type", "text/plain"), ("Content-Type", "application/octet-stream"), ("X-Custom", "a: b; c"),
          ("Content-Transfer-Encoding", "binary"), ("X-Empty-Ish", "0")]
 
